@@ -115,10 +115,14 @@ def exec_commands(run, exe, cmds, name, per_cmd_timeout=30, env=None):
                 last_idx = ev.get('idx', last_idx)
             except Exception:
                 pass
-        abnormal = good and json.loads(good[-1]).get('e') in ('UB', 'Crash', 'Exc', 'Timeout')
+        abnormal = good and json.loads(good[-1]).get('e') in ('UB', 'Crash', 'Exc', 'Timeout') and 'ThreadSanitizer' not in r.stderr
         if not abnormal:
             nxt = (last_idx + 1) if last_idx is not None else skip
-            good.append(json.dumps({"e": "Crash", "idx": nxt, "what": "exit %d %s" % (r.returncode, r.stderr[-300:])}).encode())
+            if 'ThreadSanitizer' in r.stderr:
+                m = re.search(r'WARNING: ThreadSanitizer: ([^\n(]*)', r.stderr)
+                good.append(json.dumps({"e": "Race", "idx": nxt, "what": (m.group(1).strip() if m else "tsan report")}).encode())
+            else:
+                good.append(json.dumps({"e": "Crash", "idx": nxt, "what": "exit %d %s" % (r.returncode, r.stderr[-300:])}).encode())
             last_idx = nxt
         with open(tpath, 'wb') as f:
             f.write(b'\n'.join(good) + b'\n')
